@@ -7,6 +7,6 @@ CONSTANTS
   Wide = TRUE
   Slim = FALSE
   Alphabet = {"a", ",", "@"}
-  MaxInput = 4
+  MaxInput = 3
 INVARIANTS TypeOK StackDistinct Consumes Bounded NoHang RejectSound Export
 
